@@ -33,6 +33,11 @@ func tagQueries() []wk.NamedQuery {
 		{Op: "keyed", Key: "#route"}, {Op: "tagged", Key: "#network", Val: "x"},
 		{Op: "keyed", Key: "@wikidata"}, {Op: "keyed", Key: "@fhrs:id"},
 		{Op: "keyed", Key: "name"}, {Op: "keyed", Key: "#name"}, {Op: "keyed", Key: "#absent"},
+		// the token-table family's keys, by key and by value
+		{Op: "keyed", Key: "#shop"}, {Op: "keyed", Key: "#waterway"},
+		{Op: "tagged", Key: "#amenity", Val: "a"}, {Op: "tagged", Key: "#shop", Val: "b"},
+		{Op: "tagged", Key: "#waterway", Val: "a"}, {Op: "tagged", Key: "#waterway", Val: "b"},
+		{Op: "tagged", Key: "@wikidata", Val: "b"},
 	}
 	qs := append([]wk.RQ{}, atoms...)
 	for _, t := range []b6.FeatureType{b6.FeatureTypePoint, b6.FeatureTypePath, b6.FeatureTypeArea, b6.FeatureTypeRelation} {
@@ -101,6 +106,7 @@ func spatialQueries() []wk.NamedQuery {
 
 func main() {
 	slots := ok.Menu()
+	tokSlots := ok.TagTableSlots()
 	queries := append(tagQueries(), spatialQueries()...)
 	kit.Main(&kit.Check{
 		ID: "C02", Level: "exploration",
@@ -123,9 +129,21 @@ func main() {
 				blocks[0].Radices[1], blocks[0].Radices[4], blocks[0].Radices[7] = 2, 3, 3
 				blocks[0].N = kit.Product(blocks[0].Radices)
 			}
-			return kit.FuncSpace{N: ok.Total(blocks), F: func(i int64) kit.Result {
+			menuN := ok.Total(blocks)
+			tokBlock := ok.Block{Scheme: ok.Schemes[0], Radices: ok.Radices(tokSlots, "thorough")}
+			tokBlock.N = kit.Product(tokBlock.Radices)
+			return kit.FuncSpace{N: menuN + tokBlock.N, F: func(i int64) kit.Result {
 				var r kit.Result
-				blk, choice := ok.Locate(blocks, i)
+				slots := slots
+				var blk ok.Block
+				var choice []int
+				if i < menuN {
+					blk, choice = ok.Locate(blocks, i)
+				} else {
+					// the token-table family (osmkit.TagTableSlots)
+					blk, choice = ok.Locate([]ok.Block{tokBlock}, i-menuN)
+					slots = tokSlots
+				}
 				sch := blk.Scheme
 				in := ok.Expand(slots, choice, sch)
 				var pbf []byte
@@ -140,6 +158,11 @@ func main() {
 					}
 				}
 				r.Nontrivial = len(in.Ways)+len(in.Relations) > 0
+				if i >= menuN {
+					for _, n := range in.Nodes {
+						r.Nontrivial = r.Nontrivial || len(n.Tags) > 0
+					}
+				}
 				r.Key = in.String()
 				if i%1009 == 0 {
 					r.Sample = map[string]string{"ids": sch.Name, "input": in.String()}
@@ -199,7 +222,7 @@ func main() {
 					r.Outcome = "diff"
 				}
 				return r
-			}}, fmt.Sprintf("menu inputs of <= 11 nodes, <= 3 ways, <= 3 relations (slots n2, n1+n8, wayA, wayB, wayC, relM, relP, relQ): %s; %d FindFeatures queries (tag + spatial) and every mentioned ID in every feature type per input", ok.BlocksString(blocks), len(queries))
+			}}, fmt.Sprintf("menu inputs of <= 11 nodes, <= 3 ways, <= 3 relations (slots n2, n1+n8, wayA, wayB, wayC, relM, relP, relQ): %s; token-table family (n1, n2, n8 each untagged or one of 2 values of amenity/shop/waterway/wikidata): %d; %d FindFeatures queries (tag + spatial) and every mentioned ID in every feature type per input", ok.BlocksString(blocks), tokBlock.N, len(queries))
 		},
 	})
 }
